@@ -59,6 +59,9 @@ func SortReader(ctx context.Context, spillTarget int, typ slicetype.Type, r slic
 			break
 		}
 		bytesPerRow := size / n
+		if bytesPerRow < 1 {
+			bytesPerRow = 1
+		}
 		targetRows := spillTarget / bytesPerRow
 		if targetRows < sliceio.SpillBatchSize {
 			targetRows = sliceio.SpillBatchSize
